@@ -517,3 +517,8 @@ def check(run):
     run.rule(r07g, run)
     run.rule(r07h, run, S)
     run.rule(r07i, run, S)
+    # shared with C05: item assignment of an unknown key converts it with the declared addition type - which exists only if
+    # every non-boolean addition policy was recorded as a type
+    from . import c05
+    run.rules_run.append("R05i")
+    run.rule(c05.r05i, run)
